@@ -575,6 +575,10 @@ class SVG:
                     # the clip applies in the coordinate system of the <use>, not in the
                     # one the target's own transform sets up: keep them on separate levels
                     swaps.append((use_el, group))
+                elif "opacity" in group.attrib:
+                    # group opacity composites the instance as a whole; the target may still
+                    # become several layers (fill + stroke), let simplify() decide later
+                    swaps.append((use_el, group))
                 elif _try_remove_group(group, push_opacity=False):
                     _inherit_attrib(group.attrib, new_el)
                     swaps.append((use_el, new_el))
